@@ -4,6 +4,7 @@ import Tw.Proofs.Datafile
 import Tw.Proofs.DatafileWriter
 import Tw.Model.Map
 import Tw.Proofs.Map
+import Tw.Proofs.MapWriter
 import Tw.Gen.MapItems
 import Tw.Gen.Datafile
 
@@ -538,6 +539,69 @@ theorem settings_iter_terminates (s : List UInt8) (pos : Nat) (hpos : pos ≤ s.
 
 /-- non-vacuity: a settings block with two entries -/
 example : settingsAll [97, 0, 98, 99, 0] 6 0 = some (.ok [[97], [98, 99]]) := by rfl
+
+/-! ### Map round trip -/
+
+/-- **Map round trip.**  For every well-formed map `m` (`WMap.Ok`: ids fit 16 bits, every index of
+the info item, the images and the layers lies in the range the format demands, the groups' layer
+counts add up, every word fits an `i32`, file below 2 GiB) and every zlib pair with
+`inflate |x| (deflate x) = x`: the file `writeMap deflate m` (independent writer model: version,
+info, images, envelopes, groups, layers of all kinds, sounds, data) is accepted, and the map reader
+returns the map — version 1, the info item's indices, the group and image ranges, every image,
+every group with its layer range, every layer (tile layers of every kind with colour, colour
+envelope, image and data indices; quad layers; sound layers) and every data block. -/
+theorem map_roundtrip (deflate : List UInt8 → List UInt8)
+    (inflate : Nat → List UInt8 → Option (List UInt8)) (m : WMap) (ok : m.Ok deflate)
+    (hz : ∀ x ∈ m.datas, inflate x.length (deflate x) = some x) :
+    ∃ r, Reader.new (writeMap deflate m) = .ok r
+      ∧ version r = .ok 1 ∧ checkVersion r = .ok ()
+      ∧ info r = .ok { author := m.info.author, version := m.info.version, credits := m.info.credits,
+                       license := m.info.license, settings := m.info.settings }
+      ∧ typeRange r MAP_ITEMTYPE_GROUP = .ok (grpRange m)
+      ∧ typeRange r MAP_ITEMTYPE_IMAGE = .ok (imgRange m)
+      ∧ (∀ i (hi : i < m.images.length), image r (2 + i)
+            = .ok { width := m.images[i].width, height := m.images[i].height, name := m.images[i].name,
+                    data := m.images[i].data })
+      ∧ (∀ i (hi : i < m.groups.length), group r (gBase m + i)
+            = .ok { offsetX := m.groups[i].offsetX, offsetY := m.groups[i].offsetY,
+                    parallaxX := m.groups[i].parallaxX, parallaxY := m.groups[i].parallaxY,
+                    layersStart := (layRange m).1 + startOf m.groups i,
+                    layersEnd := (layRange m).1 + startOf m.groups i + m.groups[i].numLayers,
+                    clipping := m.groups[i].clipping, name := nameGet (nameW m.groups[i].name) })
+      ∧ (∀ i (hi : i < m.layers.length), layer r (lBase m + i)
+            = .ok (m.layers[i].read (envRange m).1 (imgRange m).1 (sndRange m).1))
+      ∧ (∀ d (hd : d < m.datas.length), Tw.Map.readData r inflate d = .ok m.datas[d]) :=
+  map_roundtrip_reader deflate inflate m ok hz
+
+/-- **Strings and settings come back as stored.**  A data block `s ++ [0]` without inner NUL is
+returned by `string` as `s`; a settings block that is the concatenation of NUL-terminated entries
+is iterated by `SettingsIter` into exactly those entries. -/
+theorem map_strings_settings_roundtrip (r : Reader) (z : Zlib) (d : Nat) :
+    (∀ s : List UInt8, Tw.Map.readData r z d = .ok (s ++ [0]) → (∀ b ∈ s, b ≠ 0) →
+        Tw.Map.string r z d = .ok s)
+      ∧ ∀ ss : List (List UInt8), (∀ s ∈ ss, ∀ b ∈ s, b ≠ 0) →
+          settingsAll ((ss.map (· ++ [0])).flatten) (ss.length + 1) 0 = some (.ok ss) := by
+  refine ⟨fun s h hs => string_of_data h hs, fun ss hss => ?_⟩
+  have := settingsAll_join ss hss [] (ss.length + 1) (Nat.le_refl _)
+  simpa using this
+
+/-- non-vacuity: a sample map with two groups, four layers (game, normal with colour envelope,
+quads, teleport), two images and an envelope satisfies `WMap.Ok` -/
+example : (sampleMap 1).Ok id := by
+  refine ⟨by decide, by decide, by decide, ?_, ?_, ?_, by decide +kernel, by decide⟩
+  · intro i hi
+    have : i = 0 ∨ i = 1 := by simp [sampleMap] at hi; omega
+    rcases this with rfl | rfl <;> simp [sampleMap, startOf, sampleTile]
+  · intro l hl
+    simp [sampleMap, sampleTile] at hl
+    rcases hl with rfl | rfl | rfl | rfl <;>
+      simp [WLayer.Ok, envRange, imgRange, sndRange, rangeOf, sampleMap, eBase, sBase, sampleTile] <;>
+      constructor <;> simp [WTileKind.extraData]
+  · intro it hit w hw
+    simp [mapItems, sampleMap, sampleTile, enumFrom, groupStarts, versionItem, infoItem, imageItem, envelopeItem,
+      groupItem, layerItem, layerRest, layerType, nameW, optIdx, zname, aname, WTileKind.flags, WTileKind.extra] at hit
+    rcases hit with rfl | rfl | rfl | rfl | rfl | rfl | rfl | rfl | rfl | rfl | rfl <;>
+      (simp [MAP_ITEMTYPE_LAYER_V1_TILEMAP, MAP_ITEMTYPE_LAYER_V1_QUADS, TILELAYERFLAG_GAME, TILELAYERFLAG_TELEPORT] at hw; unfold InI32; omega)
 
 end Map
 
